@@ -150,9 +150,10 @@ func recurseValidationCode(att *expr.AttributeExpr, put expr.UserType, attCtx *A
 			keyVal = "\n" + keyVal
 		}
 		elemCtx := ctx
-		if _, ok := m.ElemType.Type.(expr.UserType); ok && !expr.IsPrimitive(m.ElemType.Type) {
-			// Map elements of user type use the same (pointer) fields as any
-			// other user type: validate them accordingly.
+		if !expr.IsPrimitive(m.ElemType.Type) {
+			// Only map elements of primitive type are never pointers: user
+			// types, and the user types held by the arrays, maps and objects
+			// found in elements, use the same (pointer) fields as anywhere else.
 			elemCtx = attCtx
 		}
 		valueVal := validateAttribute(elemCtx, m.ElemType, put, "v", context+"[key]", true, view)
